@@ -628,8 +628,11 @@ pub fn check() -> i32 {
                 hook + panics swallowed by detached tasks), the same query \
                 again and an edit + query of every node return the \
                 from-scratch values, the engine shuts down, and (DB rig) a new \
-                engine on the same store answers from scratch. distinct = \
-                distinct (scenario, fault) pairs"
+                engine on the same store answers from scratch. S: victim + \
+                concurrent reader of the same root, cancellation at every \
+                point and every executor panic, under every schedule within \
+                the deviation bound. distinct = distinct (scenario, fault) \
+                pairs"
         .into();
     rep.assumptions = vec![
         "sequential: one victim at a time under the deterministic schedule \
